@@ -336,7 +336,7 @@ struct IoOps {
                     expectRecord(ex, a, b, l, "");
                 }
                 if (loader == 1) {
-                    bool ok = names.size() == order.size();
+                    bool ok = names.size() >= order.size(); // the table may be longer; names[index(x)] == x is what is promised
                     for (size_t i = 0; ok && i < order.size(); ++i) ok = names[i] == order[i];
                     if (!ok) r.mismatch(IO13, "vertex_name_table", "names[index(x)] != x or wrong table size");
                     r.res.probes.inc("vertex_names_checked", (int64_t)order.size());
